@@ -545,6 +545,20 @@ pub fn run(ctx: &Ctx, rep: &mut Report) {
         for c in "0123456789〇一二三四五六七八九十百千万億兆".chars() {
             lex.entries.push(Entry::simple(&c.to_string(), rng.range(0, nid - 1) as i16, rng.range(0, nid - 1) as i16, rng.range(0, 300) as i16, &pool[1]));
         }
+        // without the normalising input plugin the dictionary itself maps full-width digits and separators to their
+        // normal forms (the numeral is read from the words' normalised forms)
+        if wi % 2 == 1 {
+            for (k, c) in "０１２３４５６７８９".chars().enumerate() {
+                let mut e = Entry::simple(&c.to_string(), rng.range(0, nid - 1) as i16, rng.range(0, nid - 1) as i16, rng.range(0, 300) as i16, &pool[1]);
+                e.norm = k.to_string();
+                lex.entries.push(e);
+            }
+            for (c, n) in [("，", ","), ("．", ".")] {
+                let mut e = Entry::simple(c, rng.range(0, nid - 1) as i16, rng.range(0, nid - 1) as i16, rng.range(0, 300) as i16, &pool[2]);
+                e.norm = n.to_string();
+                lex.entries.push(e);
+            }
+        }
         // multi-character words that begin with a numeral character: very cheap, so that they are on the best path
         for w in ["一般", "十日", "千葉", "百貨店"] {
             lex.entries.push(Entry::simple(w, rng.range(0, nid - 1) as i16, rng.range(0, nid - 1) as i16, -6000, &pool[0]));
@@ -610,7 +624,7 @@ pub fn run(ctx: &Ctx, rep: &mut Report) {
                 } else {
                     n.text.clone()
                 };
-                let spelled = if default_input && rng.chance(1, 3) { fullwidth(&raw) } else { raw.clone() };
+                let spelled = if rng.chance(1, 3) { fullwidth(&raw) } else { raw.clone() };
                 let start = text.len();
                 text.push_str(&spelled);
                 spans.push((start, text.len(), if malformed { None } else { Some(n) }, raw));
